@@ -246,6 +246,8 @@ def sched_layer(tier, seed, res):
     res.evaluations += total
     # a schedule is non-trivial when it is not the first (reference) one of its program
     res.nt_count = len(res.nontrivial) + max(0, total - len(outs))
+    res.samples = (res.samples or [])[:4] + ["controlled scheduler: W=2 backlog=3 program %s (all schedules with <=1 preemption)" % SCHED_PROGS[1],
+                                            "controlled scheduler: random schedules, W=%d backlog=%d program %s" % (outs[-1]["W"], outs[-1]["N"], outs[-1]["prog"])]
     res.extra["controlled_scheduler_executions"] = total
     res.extra["controlled_scheduler_complete"] = complete[:40]
     return total
